@@ -769,6 +769,17 @@ def function_defs(text):
     return out
 
 
+def _is_zero_test(cond, name, tu):
+    """cond is true exactly when the variable `name` is zero: name == 0, 0 == name, !name"""
+    c = strip(cond, casts=True)
+    if c.get('kind') == 'UnaryOperator' and c.get('opcode') == '!':
+        return astdb.expr_text(strip(kids(c)[0], casts=True)) == name
+    if c.get('kind') == 'BinaryOperator' and c.get('opcode') == '==':
+        a, b = [strip(x, casts=True) for x in kids(c)]
+        return (astdb.expr_text(a) == name and astdb.const_int(b, tu) == 0) or (astdb.expr_text(b) == name and astdb.const_int(a, tu) == 0)
+    return False
+
+
 def check_whole_outputs(chk, tier):
     import os
     import subprocess
@@ -792,7 +803,7 @@ def check_whole_outputs(chk, tier):
     # main() maps -f 0 to "all functions in one file"
     mtu = astdb.dump_ast(astdb.src('w2c2/main.c'))
     mb = astdb.fn_body(mtu.functions['main'])
-    norm = [n_ for n_ in walk(mb) if n_.get('kind') == 'IfStmt' and re.fullmatch(r'functionsPerFile\s*==\s*0', astdb.expr_text(strip(n_['inner'][0], casts=True)))
+    norm = [n_ for n_ in walk(mb) if n_.get('kind') == 'IfStmt' and _is_zero_test(n_['inner'][0], 'functionsPerFile', mtu)
             and any(a.get('kind') == 'BinaryOperator' and a.get('opcode') == '=' and astdb.expr_text(strip(kids(a)[0])) == 'functionsPerFile'
                     and astdb.expr_text(strip(kids(a)[1], casts=True)).endswith('functions.count') for a in walk(n_['inner'][1]))]
     chk.expect(len(norm) == 1, 'R09.7', 'f0-means-single-file', 'main() does not replace -f 0 by the number of functions (found %d such statements)' % len(norm), 'main:functions-per-file')
